@@ -66,3 +66,72 @@ def main(sweep, replay):
     except Exception:  # noqa: BLE001
         traceback.print_exc()
         sys.exit(3)
+
+
+# ---------------------------------------------------------------- independent SIGPROC writer (not the repo's encoder)
+def _s(x):
+    import struct
+    return struct.pack("I", len(x)) + x.encode()
+
+
+def sigproc_header(nchans, nbits, tstart=60000.0, tsamp=0.001, fch1=1500.0, foff=-1.0, **extra):
+    import struct
+    h = _s("HEADER_START")
+    h += _s("telescope_id") + struct.pack("I", extra.get("telescope_id", 4))
+    h += _s("machine_id") + struct.pack("I", extra.get("machine_id", 10))
+    h += _s("data_type") + struct.pack("I", extra.get("data_type", 1))
+    h += _s("source_name") + _s(extra.get("source_name", "src"))
+    h += _s("barycentric") + struct.pack("I", 0)
+    h += _s("pulsarcentric") + struct.pack("I", 0)
+    h += _s("src_raj") + struct.pack("d", extra.get("src_raj", 123456.7))
+    h += _s("src_dej") + struct.pack("d", extra.get("src_dej", -123456.7))
+    h += _s("nbits") + struct.pack("I", nbits)
+    h += _s("nifs") + struct.pack("I", 1)
+    h += _s("nchans") + struct.pack("I", nchans)
+    h += _s("fch1") + struct.pack("d", fch1)
+    h += _s("foff") + struct.pack("d", foff)
+    h += _s("tstart") + struct.pack("d", tstart)
+    h += _s("tsamp") + struct.pack("d", tsamp)
+    if "pad" in extra:
+        h += _s("rawdatafile") + _s("x" * extra["pad"])
+    h += _s("HEADER_END")
+    return h
+
+
+def write_stream(tmpdir, nchans, nbits, data_bytes, splits, tsamp=0.001, tstart=60000.0, pads=None, **kw):
+    """Write `data_bytes` split at byte offsets `splits` into contiguous files; returns file names."""
+    import os
+    names = []
+    cuts = [0] + list(splits) + [len(data_bytes)]
+    bytes_per_samp = nchans * nbits / 8
+    for i in range(len(cuts) - 1):
+        chunk = data_bytes[cuts[i]:cuts[i + 1]]
+        t0 = tstart + (cuts[i] / bytes_per_samp) * tsamp / 86400.0
+        extra = dict(kw)
+        if pads:
+            extra["pad"] = pads[i]
+        hdr = sigproc_header(nchans, nbits, tstart=t0, tsamp=tsamp, **extra)
+        p = os.path.join(tmpdir, f"s{i}.fil")
+        with open(p, "wb") as fh:
+            fh.write(hdr + bytes(chunk))
+        names.append(p)
+    return names
+
+
+def unpack_spec(raw, nbits):
+    """Samples of a data section: independent reference (1-bit little, 2/4-bit big field order as the
+    library's readers and writers both use; 8/16/32: little-endian elements)."""
+    import numpy as np
+    raw = np.frombuffer(bytes(raw), dtype=np.uint8)
+    if nbits == 8:
+        return raw.copy()
+    if nbits == 16:
+        return raw[: raw.size // 2 * 2].view("<u2").copy()
+    if nbits == 32:
+        return raw[: raw.size // 4 * 4].view("<f4").copy()
+    f = 8 // nbits
+    out = np.zeros(raw.size * f, np.uint8)
+    for j in range(f):
+        sh = j * nbits if nbits == 1 else (f - 1 - j) * nbits
+        out[j::f] = (raw >> sh) & ((1 << nbits) - 1)
+    return out
